@@ -10,15 +10,15 @@ CHECKS = {
             "Trusted: the ECVRF core shared by model and implementation (attacked separately in C18); blake3; the harness's own model."),
     "C02": ("exploration", "DESIGN.md §5 C02",
             "model-based PBT: every lookup / batch lookup after every epoch verified with the real client verifier and compared with the model's (value, version, epoch)",
-            "After every state-changing publish of a generated history every pool label (published or not) is looked up singly and in generated batches, through Directory and a fresh ReadOnlyDirectory; proofs are verified against the MODEL's root and must yield the model's latest state; unpublished labels must fail.",
+            "After every state-changing publish of a generated history (incl. 60-150-label batches and a 258-300-version label) every pool label (published or not) is looked up singly and in generated batches, through Directory and a fresh ReadOnlyDirectory; proofs are verified against the MODEL's root and must yield the model's latest state; unpublished labels must fail. Part faulty_and_lagging_reads: a lookup on a cached instance kept from an earlier epoch, and with every storage operation of the request failed in turn, must be an error or verify to the model at the epoch it names.",
             "Trusted: model (as C01); the client verifier lookup_verify is the unit under test together with the prover."),
     "C03": ("exploration", "DESIGN.md §5 C03",
             "model-based PBT over histories x HistoryParams (Complete, MostRecent N below/at/above the version count)",
-            "For every published label after every epoch, Complete and MostRecent(N) histories are requested, verified with the same parameter against the model root, and compared with the model's newest-first version list.",
+            "For every published label after every epoch, Complete and MostRecent(N) histories are requested, verified with the same parameter against the model root, and compared with the model's newest-first version list (incl. a label with 258-300 versions: marker versions around the skip-list entry 256). Part faulty_and_lagging_reads as in C02, for key_history.",
             "Trusted: model (as C01)."),
     "C04": ("exploration", "DESIGN.md §5 C04",
             "model-based PBT: all epoch pairs of generated histories audited against the model's root hashes",
-            "For generated histories all pairs 0<=s<e<=current are audited at the end (so most ranges end before the latest epoch), plus the newest step and the full range after every epoch and 9 invalid requests; audit_verify is fed the MODEL's roots.",
+            "For generated histories all pairs 0<=s<e<=current are audited at the end (so most ranges end before the latest epoch), plus the newest step and the full range after every epoch and 9 invalid requests; audit_verify is fed the MODEL's roots. Part faulty_and_lagging_reads as in C02, for audit.",
             "Trusted: model roots; audit_verify (whose soundness is C09's subject)."),
     "C05": ("exploration", "DESIGN.md §5 C05",
             "PBT with an adversarial prover: constructed prefix-sharing leaf sets, every ancestor as anchor, 15+ mutations; soundness/completeness oracle = the leaf set + from-scratch model trie",
